@@ -8,7 +8,8 @@
 (* file of a run, one record per row:                                       *)
 (*     [ty |-> row type, t |-> simulated time of the row (-1 if none),       *)
 (*      f  |-> <<all comma separated columns of the row, as strings>>]       *)
-(* (`input_flag,<name>,<value>` rows have ty = "input_flag", f of length 3). *)
+(* (`input_flag,<name>,<value>` rows have ty = "input_flag", f of length 3;  *)
+(* the harness appends one PROCESS_EXIT row: how the process ended).         *)
 (*                                                                          *)
 (* The property is a 2-safety property:  for every position k the two rows   *)
 (* are equal on the observation function Obs, and the traces have the same   *)
